@@ -124,7 +124,7 @@ class ChangeState(Contract):
             return False
         m, v = cia402.CW[cia402.TRANSITIONS[(frm, to)]]
         good_cw = compare("==", binop("&", cws[0][1], m), v)
-        if s.returned and s.ret is True:
+        if s.returned and bool(S.is_true(s.ret)):
             return And(good_cw, s.w.get(s.pre["drive"], "state") == DSTATES.index(to))
         return And(good_cw, s.returned)
 
